@@ -170,6 +170,54 @@ def _row_origin(m, lp):
     return None
 
 
+def _per_row_position_sets(ctx, m, W) -> bool:
+    """The CSR columns are read from per-row position sets (`cols = [set() for _ in range(n)]`, `cols[row].add(col)` recorded during
+    assembly, `for col in sorted(cols[row])` in the builder) instead of scanning the table.  Then the sparse matrix holds an entry
+    exactly where a position was recorded: every store into the Jacobian table needs a sibling `cols[<same row>].add(<same col>)` in
+    the same loops under the same guards.  -> True when this construction was recognised (obligations emitted)."""
+    fl = m.flow
+    recs = {}
+    for f in fl.facts:
+        if f.kind == "call" and f.target == "add" and f.value is not None:
+            v = simp(f.value)
+            if v[0] == "meth" and v[2] == "add" and len(v[3]) == 1 and not v[4] and v[1][0] == "sub":
+                recs.setdefault(v[1][1], []).append((simp(v[1][2]), simp(v[3][0]), f))
+    # the table the builder reads: sub(T, <row>) inside the iterable of a loop that encloses appends
+    used = []
+    for T in recs:
+        is_sets = T[0] == "comp" and T[2] in (("call", ("global", "set"), (), ()), ("set", ())) or T[0] == "acc"
+        reads = any(any(isinstance(x, tuple) and len(x) == 3 and x[0] == "sub" and x[1] == T for x in walk_(simp(lp.iter)))
+                    for f in fl.facts if f.kind == "append" for lp in f.loops)
+        if is_sets and reads:
+            used.append(T)
+    if len(used) != 1:
+        return False
+    T = used[0]
+    tname = show(T)[:40]
+    nsite = 0
+    for site in m.sites:
+        if site.array != "jacrhs" or site.kind not in ("loss", "gain", "mod", "heat", "cool"):
+            continue
+        d = m.decode_flat(simp(site.fact.index))
+        if d is None:
+            continue
+        nsite += 1
+        row, col = simp(d[0]), simp(d[1])
+        sib = [f for r, c, f in recs[T] if r == row and c == col and tuple(l.id for l in f.loops) == tuple(l.id for l in site.fact.loops)
+               and [(simp(g), p) for g, p in f.guards] == [(simp(g), p) for g, p in site.fact.guards]]
+        ctx.check(bool(sib), "R1", f"position record:{site.kind}@{site.fact.line}", (FILE, site.fact.line),
+                  f"the {site.kind} term's (row, column) is recorded in the per-row position sets" if sib else
+                  f"the {site.kind} site stores a term into the Jacobian table but does not record its column in the per-row position sets ({tname}..) from which the CSR "
+                  "arrays and NNZ are built: an entry that only this site contributes is assigned by the dense / odeint Jacobian and marked in the pattern file, but is "
+                  "not stored in the sparse matrix",
+                  expected="<sets>[row].add(col) next to the store", found="no matching record")
+    if not nsite:
+        return False
+    if not ctx.by("VIOLATION"):
+        ctx.unrec("R1", "csr-construction:from recorded positions", W, "the CSR arrays are built from recorded per-row position sets; beyond the pairing above the construction is not decided")
+    return True
+
+
 def _r1(ctx, m):
     fl = m.flow
     W = (FILE, m.func.lineno)
@@ -200,6 +248,8 @@ def _r1(ctx, m):
                 ctx.unrec("R1", "csr-construction:from recorded positions", W, "the CSR arrays are built from a recorded position set; beyond the pairing above the construction is not decided") \
                     if not ctx.by("VIOLATION") else None
                 return
+        if _per_row_position_sets(ctx, m, W):
+            return
         ctx.unrec("R1", "csr-construction", W, f"CSR construction not recognised (counter={counter}, lists={sorted(roles)})")
         return
     rows, cols, vals = roles["rows"], roles["cols"], roles["vals"]
@@ -238,6 +288,8 @@ def _r1(ctx, m):
             elif it1[0] == "call" and it1[1] == ("global", "enumerate") and len(it1[2]) == 1 and not it1[3] and it1[2][0][0] == "sub" \
                     and it1[2][0][1] == m.JAC and it1[2][0][2][0] == "slice":
                 form = "rowslice"
+    if form is None and _per_row_position_sets(ctx, m, W):
+        return
     if form is None:
         # restructured builder: the one obligation that is independent of the loop shape --
         # a row pointer must be emitted for every row, whatever the row contains
@@ -390,7 +442,9 @@ def _r2_r5(ctx, m, tsent=()):
     fn = pkg.method("TemplateLoader", "render")
     ctx.saw(FILE, "TemplateLoader.render")
     # a helper method that returns the text / the rows / the marks is read as the value it returns
-    from ..odemodel import pure_helper_resolver
+    from ..odemodel import pure_helper_resolver, inline_constants
+    import copy as _copy
+    fn = inline_constants(_copy.deepcopy(fn), pkg, "TemplateLoader")     # a sentinel kept in a named module / class constant is that literal
     rf = Flow(fn, FILE, resolver=pure_helper_resolver(pkg, "TemplateLoader"))
     _pattern_writer(ctx, rf, fn, sent)
     # R2 verdict
@@ -757,6 +811,12 @@ def _split_args(code, i):
 
 T = FILE
 MUTANTS = [
+    {"name": "sentinel-class-constant-differs-from-the-table-cells", "edits": [
+        {"file": T, "old": "    @dataclass\n    class GeneralInfo:\n", "new": "    _ZERO = \"0\"\n\n    @dataclass\n    class GeneralInfo:\n"},
+        {"file": T, "old": "                if elem != \"0.0\":", "new": "                if elem != self._ZERO:"}], "rules": ["R2"]},
+    {'name': 'dense-filled-from-csr-with-row-cursor-advanced-by-if', 'file': JAC, 'old': '    {% for r in ode.jac.rhs -%}\n    {% set neqns = ode.jac.nrow -%}\n    {% if r != "0.0" -%}\n    IJth(jmatrix, {{ (loop.index0/neqns) | int }}, {{ loop.index0%neqns }}) = {{ r | stmwrap(80, 24)}};\n    {% endif -%}\n    {% endfor %}\n', 'new': '    {% set cur = namespace(row=0) -%}\n    {% for col, val in zip(ode.jac.cols, ode.jac.vals) -%}\n    {% if loop.index0 >= ode.jac.rows[cur.row + 1] -%}\n    {% set cur.row = cur.row + 1 -%}\n    {% endif -%}\n    IJth(jmatrix, {{ cur.row }}, {{ col }}) = {{ val | stmwrap(80, 24)}};\n    {% endfor %}\n', 'rules': ['R3']},
+    {'name': 'odeint-rows-by-batch-transposed', 'file': ODEINT, 'old': '    {% for r in ode.jac.rhs -%}\n    {% set neqns = ode.jac.nrow -%}\n    {% if r != "0.0" -%}\n    j({{ (loop.index0/neqns) | int }}, {{ loop.index0%neqns }}) = {{ r | stmwrap(80, 24)}};\n    {% endif -%}\n    {% endfor %}\n', 'new': '    {% for rowterms in ode.jac.rhs | batch(ode.jac.nrow) -%}\n    {% set irow = loop.index0 -%}\n    {% for r in rowterms -%}\n    {% if r != "0.0" -%}\n    j({{ loop.index0 }}, {{ irow }}) = {{ r | stmwrap(80, 24)}};\n    {% endif -%}\n    {% endfor -%}\n    {% endfor %}\n', 'rules': ['R3']},
+    {'name': 'csr-rows-by-start-offset-one-row-short', 'file': T, 'old': '        nnz = 0\n\n        for row in range(n_eqns):\n            spjacrptr.append(nnz)\n            for col in range(n_eqns):\n                elem = jacrhs[row * n_eqns + col]\n                if elem != "0.0":\n                    spjaccval.append(col)\n                    spjacdata.append(f"{elem}")\n                    nnz += 1\n        spjacrptr.append(nnz)\n', 'new': '        for rstart in range(0, n_eqns * n_eqns - n_eqns, n_eqns):\n            spjacrptr.append(len(spjacdata))\n            for col, elem in enumerate(jacrhs[rstart : rstart + n_eqns]):\n                if elem == "0.0":\n                    continue\n                spjaccval.append(col)\n                spjacdata.append(f"{elem}")\n        nnz = len(spjacdata)\n        spjacrptr.append(nnz)\n', 'rules': ['R1']},
     {"name": 'rowslice-one-column-short', "file": T, "old": '        nnz = 0\n\n        for row in range(n_eqns):\n            spjacrptr.append(nnz)\n            for col in range(n_eqns):\n                elem = jacrhs[row * n_eqns + col]\n                if elem != "0.0":\n                    spjaccval.append(col)\n                    spjacdata.append(f"{elem}")\n                    nnz += 1\n        spjacrptr.append(nnz)\n',
      "new": '        for row in range(n_eqns):\n            spjacrptr.append(len(spjacdata))\n            for col, elem in enumerate(jacrhs[row * n_eqns : (row + 1) * n_eqns - 1]):\n                if elem == "0.0":\n                    continue\n                spjaccval.append(col)\n                spjacdata.append(elem)\n        nnz = len(spjacdata)\n        spjacrptr.append(nnz)\n', "rules": ['R1']},
     {"name": "cusparse-kernel-drops-system-offset", "file": "naunet/templates/cvode/src/naunet_jac.cpp.j2", "old": "data[jistart + ", "new": "data[", "rules": ["R6"]},
@@ -781,6 +841,18 @@ MUTANTS = [
     {"name": "nequations-macro", "file": MACROS, "old": "#define NEQUATIONS (NSPECIES + THERMAL)", "new": "#define NEQUATIONS (NSPECIES)", "rules": ["R4"]},
 ]
 BENIGN = [
+    {"name": "sentinel-as-named-class-and-module-constant", "edits": [
+        {"file": T, "old": "    @dataclass\n    class GeneralInfo:\n", "new": "    _ZERO = \"0.0\"\n\n    @dataclass\n    class GeneralInfo:\n"},
+        {"file": T, "old": "\nclass TemplateLoader:\n", "new": "\n_NO_TERM = \"0.0\"\n\n\nclass TemplateLoader:\n"},
+        {"file": T, "old": "        jacrhs = [\"0.0\"] * n_eqns * n_eqns", "new": "        jacrhs = [self._ZERO] * n_eqns * n_eqns"},
+        {"file": T, "old": "                    \"0.0\"\n                    if jacrhs[n_spec * n_eqns + si] == \"0.0\"", "new": "                    _NO_TERM\n                    if jacrhs[n_spec * n_eqns + si] == TemplateLoader._ZERO"},
+        {"file": T, "old": "                if elem != \"0.0\":", "new": "                if elem != self._ZERO:"},
+        {"file": T, "old": "pattern = [0 if j == \"0.0\" else 1 for j in jacrhs]", "new": "pattern = [0 if j == _NO_TERM else 1 for j in jacrhs]"}]},
+    {'name': 'dense-decode-index-minus-one-floordiv-remainder-by-subtraction', 'file': JAC, 'old': '    {% for r in ode.jac.rhs -%}\n    {% set neqns = ode.jac.nrow -%}\n    {% if r != "0.0" -%}\n    IJth(jmatrix, {{ (loop.index0/neqns) | int }}, {{ loop.index0%neqns }}) = {{ r | stmwrap(80, 24)}};\n    {% endif -%}\n    {% endfor %}\n', 'new': '    {% set neqns = ode.jac.nrow -%}\n    {% for r in ode.jac.rhs -%}\n    {% if r != "0.0" -%}\n    {% set flat = loop.index - 1 -%}\n    IJth(jmatrix, {{ flat // neqns }}, {{ flat - neqns * (flat // neqns) }}) = {{ r | stmwrap(80, 24)}};\n    {% endif -%}\n    {% endfor %}\n'},
+    {'name': 'odeint-sentinel-test-swapped-arms', 'file': ODEINT, 'old': '    {% for r in ode.jac.rhs -%}\n    {% set neqns = ode.jac.nrow -%}\n    {% if r != "0.0" -%}\n    j({{ (loop.index0/neqns) | int }}, {{ loop.index0%neqns }}) = {{ r | stmwrap(80, 24)}};\n    {% endif -%}\n    {% endfor %}\n', 'new': '    {% for r in ode.jac.rhs -%}\n    {% set neqns = ode.jac.nrow -%}\n    {% if r == "0.0" -%}\n    {% else -%}\n    j({{ (loop.index0/neqns) | int }}, {{ loop.index0%neqns }}) = {{ r | stmwrap(80, 24)}};\n    {% endif -%}\n    {% endfor %}\n'},
+    {'name': 'odeint-rows-by-batch', 'file': ODEINT, 'old': '    {% for r in ode.jac.rhs -%}\n    {% set neqns = ode.jac.nrow -%}\n    {% if r != "0.0" -%}\n    j({{ (loop.index0/neqns) | int }}, {{ loop.index0%neqns }}) = {{ r | stmwrap(80, 24)}};\n    {% endif -%}\n    {% endfor %}\n', 'new': '    {% for rowterms in ode.jac.rhs | batch(ode.jac.nrow) -%}\n    {% set irow = loop.index0 -%}\n    {% for r in rowterms -%}\n    {% if r != "0.0" -%}\n    j({{ irow }}, {{ loop.index0 }}) = {{ r | stmwrap(80, 24)}};\n    {% endif -%}\n    {% endfor -%}\n    {% endfor %}\n'},
+    {'name': 'csr-rows-by-start-offset-range-step', 'file': T, 'old': '        nnz = 0\n\n        for row in range(n_eqns):\n            spjacrptr.append(nnz)\n            for col in range(n_eqns):\n                elem = jacrhs[row * n_eqns + col]\n                if elem != "0.0":\n                    spjaccval.append(col)\n                    spjacdata.append(f"{elem}")\n                    nnz += 1\n        spjacrptr.append(nnz)\n', 'new': '        for rstart in range(0, n_eqns * n_eqns, n_eqns):\n            spjacrptr.append(len(spjacdata))\n            for col, elem in enumerate(jacrhs[rstart : rstart + n_eqns]):\n                if elem == "0.0":\n                    continue\n                spjaccval.append(col)\n                spjacdata.append(f"{elem}")\n        nnz = len(spjacdata)\n        spjacrptr.append(nnz)\n'},
+    {'name': 'csr-and-pattern-rows-cut-by-a-helper-method', 'edits': [{'file': T, 'old': '    def _prepare_renorm_content(self, netinfo: NetworkInfo) -> RenormContent:\n', 'new': '    @staticmethod\n    def _matrix_rows(flat, n):\n        return [flat[row * n : (row + 1) * n] for row in range(n)]\n\n    def _prepare_renorm_content(self, netinfo: NetworkInfo) -> RenormContent:\n'}, {'file': T, 'old': '        nnz = 0\n\n        for row in range(n_eqns):\n            spjacrptr.append(nnz)\n            for col in range(n_eqns):\n                elem = jacrhs[row * n_eqns + col]\n                if elem != "0.0":\n                    spjaccval.append(col)\n                    spjacdata.append(f"{elem}")\n                    nnz += 1\n        spjacrptr.append(nnz)\n', 'new': '        for rowdata in self._matrix_rows(jacrhs, n_eqns):\n            spjacrptr.append(len(spjaccval))\n            for col, elem in enumerate(rowdata):\n                if elem != "0.0":\n                    spjaccval.append(col)\n                    spjacdata.append(f"{elem}")\n        nnz = len(spjaccval)\n        spjacrptr.append(nnz)\n'}, {'file': T, 'old': '            pattern = [0 if j == "0.0" else 1 for j in jacrhs]\n\n            rowpattern = []\n            for row in range(n_eqns):\n                rowdata = pattern[row * n_eqns : (row + 1) * n_eqns]\n                rowpattern.append(" ".join(str(e) for e in rowdata))\n', 'new': '            rowpattern = [\n                " ".join("0" if j == "0.0" else "1" for j in rowdata)\n                for rowdata in self._matrix_rows(jacrhs, n_eqns)\n            ]\n'}]},
     {"name": 'pattern-marks-on-the-slice', "file": T, "old": '            pattern = [0 if j == "0.0" else 1 for j in jacrhs]\n\n            rowpattern = []\n            for row in range(n_eqns):\n                rowdata = pattern[row * n_eqns : (row + 1) * n_eqns]\n                rowpattern.append(" ".join(str(e) for e in rowdata))\n',
      "new": '            rowpattern = [\n                " ".join("0" if elem == "0.0" else "1" for elem in jacrhs[row * n_eqns : (row + 1) * n_eqns])\n                for row in range(n_eqns)\n            ]\n'},
     {"name": 'pattern-string-flags-rowstarts', "file": T, "old": '            pattern = [0 if j == "0.0" else 1 for j in jacrhs]\n\n            rowpattern = []\n            for row in range(n_eqns):\n                rowdata = pattern[row * n_eqns : (row + 1) * n_eqns]\n                rowpattern.append(" ".join(str(e) for e in rowdata))\n',
